@@ -60,6 +60,11 @@ CHECKS = {
   note="bounded grids as stated; reference recognisers follow the documented syntaxes; NewDecimalFromFloat only required to be within one float ulp; IPv6 zone ids / leading zeros / embedded IPv4: oracle abstains",
   tech="bounded-exhaustive enumeration of literals and values against reference recognisers / big-int arithmetic (grids + edit-distance-1 neighbourhoods)",
   ref="DESIGN.md §5 C12"),
+ "C13": dict(
+  text="bounded-exhaustive enumeration of values to depth 2 over a 35-leaf universe (limits of every scalar and extension type, JSON-escape strings) with record keys incl. __entity / __extn / type / id / fn / arg, every Unicode scalar value (quick: BMP + astral samples; thorough: all) as string value, record key, entity id and type, 384 entities (every parent subset x attrs x tags), entity maps, requests, decisions, diagnostics: decode(encode(x)) equal with the same type and byte-stable on a second round trip; a schema-typed entity document with 14 spelling slots in every combination of <=2 deviations (explicit escape / implicit object / bare string) decodes to equal entities under UnmarshalJSONWithSchema; typed decoders accept all three spellings; non-long numbers rejected",
+  note="bounded as stated; the {fn,arg} object under schema coercion may be rejected (not among the documented coercions) but must be equal when accepted; records colliding with the __entity/__extn escapes are a recorded format-level finding",
+  tech="bounded-exhaustive enumeration of data x spellings through encode/decode with a reference-value comparison",
+  ref="DESIGN.md §5 C13"),
  "C20": dict(
   text="explicit-state BFS over all container operation histories up to the stated depth from 14 initial states, every transition executed on the real PolicySet and compared with a Go-map model and the authorization decision table",
   note="bounded: ids {a, policy1, policy10, policy2}+loaded ids, 5 policy kinds, depth 4 (quick) / 6 (thorough); model = plain Go map",
